@@ -6,6 +6,7 @@ CONSTANTS
     SrvKinds = {"chclose"}
     Faults = {}
     ClientClose = FALSE
+    Compliant = FALSE
     Bug = {"closeall"}
 SPECIFICATION Spec
 INVARIANTS Pairing NothingAfterClose Released NoStuckCaller SlotsLive OneTerminal
